@@ -650,6 +650,9 @@ Proof.
              (Z.mod_pos_bound b 12 ltac:(lia))).
   destruct (enc_fin root (b mod 12) strict a') as [[[r1 b1] n1]|e]; reflexivity.
 Qed.
+(* the hypothesis on the order oracle is satisfiable: insertion order, reversed order *)
+Example sord_id_permutes : forall l : list str, Permutation ((fun x => x) l) l. Proof. intros l. apply Permutation_refl. Qed.
+Example sord_rev_permutes : forall l : list str, Permutation (rev l) l. Proof. intros l. apply Permutation_sym, Permutation_rev. Qed.
 
 (* ---------------- encode_many ---------------- *)
 Definition enc_root (e : enc) : Z := fst (fst e).
@@ -747,6 +750,7 @@ Proof.
   intros sord b rt Hb. remember (rot b rt) as R eqn:ER. unfold run, run_fun. cbn. rewrite get_last1. cbn. rewrite set_last1. cbn.
   unfold set_item. cbn [as_int]. rewrite Hb, (scatter_rot b rt Hb), <- ER. reflexivity.
 Qed.
+Example rotate_len12 : exists b : list Z, List.length b = 12. Proof. exists (repeat 0%Z 12). reflexivity. Qed.
 (* a bitmap that is not 1-d fails the assertion; an index outside a shorter bitmap is an IndexError *)
 Example rotate_2d : forall sord rt, run sord gen_rotate_bitmap_to_root [VMat 2 [[1; 0]; [0; 1]]%Z; VInt rt] = EXN OtherExn.
 Proof. reflexivity. Qed.
